@@ -1,6 +1,6 @@
 CFG = {
-    "extra_theorems": ["Xeh.LeafBridge.data_words_match"],
-    "extra_modules": ["XehModel.Proofs.Tables.Data"],
+    "extra_theorems": ["Xeh.LeafBridge.data_words_match", "Xeh.LeafBridge.range_ops_match_source"],
+    "extra_modules": ["XehModel.Proofs.Tables.Data", "XehModel.Proofs.Tables.RangeOps"],
     "n_quick": 3000, "n_thorough": 100000,
     "rule": "exhaustive small scope first: every integer width 1..128 × signedness × byte order × start alignment 0..7 (one rotating boundary value per cell in the quick tier, ten in the thorough tier; fixed-width word forms for 8/16/32/64); then generated records of 0..12 typed fields (integers of every width 1..128 signed/unsigned in both byte orders through int!/uint! and the fixed-width uN!/iN!(le/be) words, f32/f64, raw bit-strings of any length, UTF-8 strings, byte lists, NUL-terminated byte strings; ~15 % records with one out-of-domain field), packed into a vector (35 % with a run of pieces wrapped into a nested vector) + >bitstr, parsed back with the matching read words, and emitted group by group for every single split position plus one random multi-split with output interception on; one PRNG seed; a case is non-trivial when the record has at least two fields; distinct = distinct request lines"
         " Added after the fourth campaign: the byte order the first read relies on is selected before the input is opened and an order word is only given where the order changes."
